@@ -21,8 +21,8 @@ import (
 
 type env struct {
 	repo, work, verif string
-	scratch          string // $VERIF_WORK/gen_<pid>
-	plugin           string // path of the built protoc-gen-go
+	scratch           string // $VERIF_WORK/gen_<pid>
+	plugin            string // path of the built protoc-gen-go
 }
 
 func getenv(k, def string) string {
